@@ -1,5 +1,5 @@
 (* C01 — isolation (plan level): systems placed side by side never conflict. *)
-From Shred Require Import Base SrcParams Plan PlanObs PlanLemmas PlanInv PlanLoc PlanBuild PlanProps Exec ExecProps ExecPlan BatchProps OracleProps ExecObs TraceOracles ExecOracles.
+From Shred Require Import Base SrcParams Plan PlanObs PlanLemmas PlanInv PlanLoc PlanBuild PlanProps Exec ExecProps ExecPlan BatchProps OracleProps ExecObs TraceOracles ExecOracles AcceptComplete.
 
 (* For every registration program: two systems in different groups of one stage have no
    W/W, W/R or R/W overlap of their declared access. *)
@@ -73,6 +73,13 @@ Theorem C01_oracle_no_overlap_holds_on_every_model_trace :
   traces_disp (layout_tags b) (b_tl b) t -> o_no_overlap (conflict_of b) t = true.
 Proof. exact no_overlap_on_model_traces. Qed.
 Print Assumptions C01_oracle_no_overlap_holds_on_every_model_trace.
+
+(* the acceptor accepts EXACTLY the traces of the model: an `accept` disagreement of suite S2 means
+   precisely that the recorded run is not a run of the model, and a silent acceptor means it is *)
+Theorem C01_acceptor_decides_the_trace_set :
+  forall l tl tr, NoDup (concat (concat l)) -> (accept_disp l tl tr = true <-> traces_disp l tl tr).
+Proof. exact accept_iff. Qed.
+Print Assumptions C01_acceptor_decides_the_trace_set.
 
 Example C01_example :
   let rs := [RSys 1 [] [] [8] [] 3%Z; RSys 2 [] [] [] [8] 3%Z; RSys 3 [] [] [8] [9] 3%Z] in
